@@ -182,7 +182,7 @@ def decoder_cases(draw, decoders=None, max_n=60, n_errors=40):
     r, nd, nk = draw(noise(code_cls=cls))
     # rates above 1/2 are legitimate (prior-sensitive decoders behave very
     # differently there); matching-type decoders need marginals below 1/2
-    p = draw(st.sampled_from(RATES + ([0.6, 0.75] if name in (
+    p = draw(st.sampled_from(RATES + ([0.6, 0.75, 1.0] if name in (
         'BeliefPropagationOSDDecoder', 'MemoryBeliefPropagationDecoder') else [])))
     n_err = n_errors
     if name in ('UnionFindDecoder',):
